@@ -367,6 +367,7 @@ func c07GroupLookup(rep *report.R, maxRanges int) {
 	}
 	probes := append([]netip.Addr{}, pts...)
 	probes = append(probes, netip.MustParseAddr("::ffff:10.0.0.5"), netip.MustParseAddr("10.0.0.6"), netip.MustParseAddr("2001:db8::1"))
+	probes = append(probes, netip.Addr{}) // a client whose address is unknown (unix socket, missing address header): in no group, whatever the file says about ::
 	n := 0
 	var cur []rng
 	var rec func(start int)
@@ -415,7 +416,7 @@ func c07GroupLookup(rep *report.R, maxRanges int) {
 		for _, p := range probes {
 			want := ""
 			for _, r := range cur {
-				if !c07Less(p, r.s) && !c07Less(r.e, p) {
+				if p.IsValid() && !c07Less(p, r.s) && !c07Less(r.e, p) {
 					want = r.label
 				}
 			}
